@@ -7,6 +7,17 @@ From OV Require Import Base.Strs Gen.LexerGen Syn.Escape Syn.Quote Syn.Emitter L
 From Coq Require Import Lia.
 Open Scope N_scope.
 
+(* canonical text of a document without frontmatter starts with O (grammar line) or = (envelope line) *)
+Lemma emit_nonblank_head sp d : Ast.dfront d = None -> nonblank_head (emit sp d) = true.
+Proof.
+  assert (J : forall sep c x l t, nonblank_head (c :: t) = true -> nonblank_head (join sep ((c :: x) :: l) ++ [c_nl]) = true).
+  { intros sep c x [|y l] t H; cbn [join app nonblank_head] in *; exact H. }
+  intros Hf. unfold emit, emit_lines. rewrite Hf.
+  destruct (truthy (Ast.dgrammar d)) as [g|]; cbn [app s_octave s_env]; apply (J _ _ _ _ []); reflexivity.
+Qed.
+
+
+
 Section Chunks.
 Variable cls : N -> N.
 
